@@ -892,7 +892,9 @@ class Types:
                 else:
                     out |= NONE
             elif a[0] == "ext":
-                out |= self._ext_call(a[1], e, fc, module, recv_t)
+                r = self._ext_call(a[1], e, fc, module, recv_t)
+                # result of an external callable: an external object (keeps receivers of later calls 'known external')
+                out |= r if r else frozenset([("ext", a[1] + "()")])
         return out
 
     def _ext_call(self, name, e, fc, module, recv_t):
